@@ -33,17 +33,38 @@ ASSUMPTIONS = [
     '(only inside the recorded class resign_keeps_stale) the adapter replaces the duplicate by an equal copy before '
     'the next step',
     'inputs hold public keys only (Transaction.sign also signs with private keys stored in the input), '
-    'hash type SIGHASH_ALL, no coinbase inputs in scenarios (coinbase convention is in the model and theorems); '
-    'which fields a digest commits to is C01 — here the scenario states which digests change and the measured '
-    'matrix confirms it',
+    'no coinbase inputs in scenarios (coinbase convention is in the model and theorems); Transaction.sign signs '
+    'SIGHASH_ALL only (it refuses other types); which fields a digest commits to is C01 — here the scenario states '
+    'which digests change and the matrix, computed WITHOUT the library, confirms it',
+    'hash type: a signature carries a hash-type byte; Input.hash_type (the digest Transaction.verify asks for) is set '
+    'by the parse path from the first signature and by Input(signatures=...) from the last non-zero one '
+    '(lib_parsed_ht / lib_ctor_ht in Model/SignPlace.v; flag fixed=false keeps the parse path before fix C02-5); '
+    'verify_uses_signature_hash_type / signature_for_other_hash_type_fails are for an arbitrary relation indexed by the '
+    'digest.  In the scenario machine a signature is valid under the library digest of an input for hash type h iff it '
+    'was made for h and that library digest is the consensus one (every BIP143 input; legacy inputs unless h has '
+    'ANYONECANPAY with several inputs or base type NONE/SINGLE — C01 known finding legacy_non_all_hashtype, excused '
+    'here by the same class semantics and only while C01 records it).  The oracle matrix is ECDSA over the consensus '
+    'digest (independent legacy/BIP143 code of harness/props/c01.py over fields and, for parsed transactions, '
+    'signatures read from the bytes by an own parser) for the byte EACH signature carries.  Digest ids are those of '
+    'SIGHASH_ALL: no field is changed after signatures for a type that commits to less are in place.  Bare multisig '
+    'inputs cannot be serialized with signatures through the API (update_scripts has no branch) and are not generated',
 ]
 RULE = ('exhaustive m-of-n / signer subsets / permutations / call splits for small n on every standard input type, '
         'every single-field tampering and signature-list edit at every position before and after raw()/parse, '
+        'the hash-type byte of every serialized signature of every input kind changed to 02/03/81/82/83/00/04/ff in the '
+        'bytes of raw() (own reader/writer) then parse+verify, and on the constructor path (add_input(signatures=...)); '
+        'third-party signatures made by the harness over the consensus digest for 02/03/81/82/83/04 placed into every '
+        'input kind, parse+verify must agree with consensus; '
         'seeded random op sequences (1-3 inputs, mixed types, duplicate and same-point keys, foreign signers); '
         'a case is non-trivial when it contains at least one verification verdict; distinct by request')
 
 MULTI = ('sh', 'wsh', 'shwsh')
 SINGLE = ('pkh', 'wpkh', 'shwpkh')
+SINGLE_ALL = ('pkh', 'pk', 'wpkh', 'shwpkh')          # + pay-to-pubkey (the verifier supplies the key after parse)
+LEGACY = ('pkh', 'pk', 'sh')
+# hash-type bytes a serialized signature can carry: the five other standard ones, and undefined ones (0, 4, ff)
+HT_TAMPER = (2, 3, 0x81, 0x82, 0x83, 0, 4, 0xff)
+HT_FOREIGN = (2, 3, 0x81, 0x82, 0x83, 4)
 SEGWIT = ('wpkh', 'shwpkh', 'wsh', 'shwsh')
 
 
@@ -107,6 +128,17 @@ class Scn:
             self.epoch[i] = self.ep_ids[i].setdefault(rel, len(self.ep_ids[i]))
         self.ops.append('T/%s/%d%s/%s' % (name, j, '+' if on else '-', ','.join(map(str, self.epoch))))
 
+    def place(self, i, ht, keys):
+        """input i carries third-party signatures by `keys` (key order) for hash type ht; nothing is claimed about later
+        V / R steps of the generic kind (Input.hash_type of the live object stays SIGHASH_ALL)"""
+        self.unknown[i] = True
+        self.ops.append('P/%d/%d/%s' % (i, ht, ','.join(keys)))
+
+    def patched(self, kind, patches, mark=''):
+        """kind 'Q': parse(raw() with hash-type bytes changed).verify(); 'C': inputs rebuilt from serialized signatures.
+        mark '+' / '-' is set by the generator where the outcome is known by construction"""
+        self.ops.append('%s%s/%s' % (kind, mark, ','.join('%d.%d.%d' % p for p in patches) or '-'))
+
     def edit(self, i, kind, pos, arg=None):
         self.unknown[i] = True
         self.ops.append('X/%d/%s/%d%s' % (i, kind, pos, '' if arg is None else '/' + str(arg)))
@@ -153,6 +185,11 @@ CORPUS = [
     'scn sh/2/0c,0u S/*/n/f/0u;V;S/*/n/f/0c;V+;R+',                        # dup_point_keys (known)
     'scn sh/2/0c,1c,2c S/0/n/f/1c,2c;V+;T/outv/0+/1;V-;S/0/r/f/1c,2c;V+;R+',   # resign_keeps_stale (known)
     'scn sh/2/0c,1c,2c S/0/n/f/1c,2c;V+;S/0/r/f/1c,2c;V+;R+',
+    'scn wpkh/1/0c S/*/n/f/0c;V+;R+;Q-/0.0.3;Q-/0.0.2;Q-/0.0.129',            # witness_signature_hash_type_ignored (fixed, C02-5)
+    'scn wpkh/1/0c P/0/3/0c;R+;C+/-',                                           #   ... its completeness half
+    'scn wsh/2/0c,1c,2c P/0/131/0c,2c;R+;C+/-',
+    'scn wsh/2/0c,1c,2c S/*/n/f/0c,2c;R+;Q/0.1.3;C/0.0.3',                    # input_level_hash_type (known)
+    'scn wpkh/1/0c S/*/n/f/0c;C/0.0.0',
 ]
 def gen_cases(rng, tier):
     big = tier == 'thorough'
@@ -179,7 +216,7 @@ def gen_cases(rng, tier):
                                     s.sign(c)
                                     s.verify()
                                 cs.append(s.case('subset_order_split'))
-    for ty in SINGLE:
+    for ty in SINGLE_ALL:
         for k in ('0c', '0u'):
             s = Scn([(ty, 1, [k])])
             s.verify()
@@ -322,6 +359,70 @@ def gen_cases(rng, tier):
                             s.sign([keys[pos % n]], replace=True)
                             s.verify()
                         cs.append(s.case('sig_edit_' + kind))
+    # --- 4b. the hash-type byte of serialized signatures: every input kind, every position, in the bytes and on the
+    #          constructor path; third-party signatures for the other hash types
+    hts = tuple(range(256)) if big else HT_TAMPER
+    for ty in SINGLE_ALL + MULTI:
+        m, keys = (2, toks(3)) if ty in MULTI else (1, ['0c'])
+        signers = [keys[0], keys[-1]] if ty in MULTI else keys
+        for ki, chunk in enumerate([hts[j:j + 8] for j in range(0, len(hts), 8)]):
+            # all serialized signatures of the input changed to the same byte: must not verify any more
+            s = Scn([(ty, m, keys)])
+            s.sign(signers)
+            s.verify()
+            s.patched('Q', [], '+')
+            s.patched('C', [], '+')
+            for ht in chunk:
+                if ht == 1:
+                    continue
+                allpos = [(0, p_, ht) for p_ in range(m)]
+                s.patched('Q', allpos, '-')
+                s.patched('C', allpos, '-')
+            cs.append(s.case('hash_byte_all_sigs'))
+            if ty in MULTI:
+                # one signature of several: consensus checks each signature under its own byte
+                for pos in range(m):
+                    s = Scn([(ty, m, keys)])
+                    s.sign(signers)
+                    for ht in chunk:
+                        if ht != 1:
+                            s.patched('Q', [(0, pos, ht)])
+                            s.patched('C', [(0, pos, ht)])
+                    cs.append(s.case('hash_byte_one_sig'))
+        for ht in HT_FOREIGN + ((1, 0x84, 0xc1) if big else ()):
+            s = Scn([(ty, m, keys)])
+            s.place(0, ht, signers)
+            s.patched('Q', [], '+')                       # = R: what consensus accepts must verify after parse
+            s.patched('C', [], '+')
+            other = 1 if ht != 1 else 3
+            s.patched('Q', [(0, p_, other) for p_ in range(m)], '-')   # right signature, wrong byte
+            s.patched('C', [(0, p_, other) for p_ in range(m)], '-')
+            s.place(0, ht, signers[:m - 1] + ['8c'])      # a foreign signer for this hash type
+            s.patched('Q', [], '-')
+            cs.append(s.case('foreign_hash_type'))
+    # several inputs of mixed kinds: one input's bytes changed / one input signed by a third party for another type
+    for shape in ([('sh', 2, toks(3)), ('wpkh', 1, ['3c']), ('pkh', 1, ['4c'])],
+                  [('wsh', 2, toks(3)), ('pk', 1, ['3u']), ('shwpkh', 1, ['4c'])],
+                  [('shwsh', 1, toks(2)), ('wsh', 2, toks(2, 2))]):
+        for i, (ty, m, ks) in enumerate(shape):
+            s = Scn(shape)
+            for j, (ty2, m2, ks2) in enumerate(shape):
+                s.sign(ks2[:m2], target=j)
+            s.verify()
+            for ht in (3, 0x82, 0):
+                s.patched('Q', [(i, p_, ht) for p_ in range(m)], '-')
+                s.patched('C', [(i, p_, ht) for p_ in range(m)], '-')
+            cs.append(s.case('hash_byte_multi_input'))
+            for ht in (0x83, 2):
+                s = Scn(shape)
+                for j, (ty2, m2, ks2) in enumerate(shape):
+                    if j != i:
+                        s.sign(ks2[:m2], target=j)
+                s.place(i, ht, ks[:m])
+                s.patched('Q', [], '+')
+                s.patched('C', [], '+')
+                s.patched('Q', [(i, 0, 1)], '-' if m == 1 else '')
+                cs.append(s.case('foreign_hash_type_multi_input'))
     # --- 5. larger n (sampled), random op sequences
     for _ in range(400 if big else 25):
         n = rng.randrange(5, 16)
@@ -357,6 +458,7 @@ def random_scenario(rng, big):
     s = Scn(shape)
     fields = tamper_fields(shape)
     on = []
+    frozen = False
     for _ in range(rng.randrange(2, 10)):
         x = rng.random()
         i = rng.randrange(len(shape))
@@ -365,9 +467,21 @@ def random_scenario(rng, big):
             signers = [rng.choice(src) for _ in range(rng.randrange(1, 4))]
             s.sign(signers, target=(i if rng.random() < 0.6 else None), replace=rng.random() < 0.3,
                    fail=rng.random() < 0.4)
-        elif x < 0.7:
+        elif x < 0.62:
             s.verify(both=rng.random() < 0.5)
+        elif x < 0.67:
+            ty, m_, ks_ = shape[i]
+            ht = rng.choice(HT_FOREIGN + (1,))
+            # what a digest commits to depends on the hash type (C01); the digest ids of this model are those of
+            # SIGHASH_ALL, so no field changes after signatures for another type are in place
+            frozen = frozen or not _all_like(ht)
+            s.place(i, ht, [rng.choice(ks_ if rng.random() < 0.85 else pool) for _ in range(rng.randrange(1, m_ + 2))])
+        elif x < 0.7:
+            s.patched('Q', [(rng.randrange(len(shape)), rng.randrange(3), rng.choice(HT_TAMPER + (1,)))
+                            for _ in range(rng.randrange(0, 3))])
         elif x < 0.82:
+            if frozen:
+                continue
             if on and rng.random() < 0.5:
                 f = on.pop(rng.randrange(len(on)))
                 s.tamper(f[0], f[1], False)
@@ -386,7 +500,8 @@ def random_scenario(rng, big):
 
 def model_req(c):
     # expectation marks are for prop_check only
-    return c.req.replace('V+', 'V').replace('V-', 'V').replace('R+', 'R').replace('R-', 'R')
+    import re
+    return re.sub(r'([; ])([VRQC])[+-]', r'\1\2', c.req)
 
 
 def is_trivial(c, out):
@@ -418,18 +533,56 @@ def max_matching(rows):
     return sum(1 for i in range(len(rows)) if aug(i, set()))
 
 
-def prop_check(c, out):
+def _mark(o):
+    return o.split('/')[0][1:]
+
+
+def _base_hts(ops):
+    """hash-type byte the signatures of each input carry before patches, op by op: 1, or what the last P op said"""
+    base, out = {}, []
+    for o in ops:
+        f = o.split('/')
+        if f[0] == 'P':
+            base[int(f[1])] = int(f[2])
+        elif f[0] in ('S', 'X'):
+            pass
+        out.append(dict(base))
+    return out
+
+
+def _mixed(o, base, per):
+    """is this a Q / C step at which Input.hash_type cannot be the hash type of every signature checked?  Either some
+    input is left with signatures that carry DIFFERENT hash-type bytes, or (constructor path, which skips a zero
+    hash type) a signature carries the byte 00.  (the rows of the answer tell how many signatures the step saw)"""
+    f = o.split('/')
+    if f[0][0] not in 'QC' or f[1] == '-':
+        return False
+    patches = {}
+    for p in f[1].split(','):
+        i, pos, ht = (int(x) for x in p.split('.'))
+        patches[(i, pos)] = ht
+    for i, rows in enumerate(per):
+        n = 0 if rows == '-' else len(rows.split(','))
+        carried = [patches.get((i, pos), base.get(i, 1)) for pos in range(n)]
+        if len(set(carried)) > 1 or (f[0][0] == 'C' and 0 in carried):
+            return True
+    return False
+
+
+def prop_check(c, out, exempt_mixed=False, exempt_legacy_non_all=False):
     """The statement, evaluated on the implementation's own answers: a verdict True (and Input.valid True) needs,
-    for every input, at least m signatures each valid (measured with fastecdsa) for a distinct listed key;
-    an honest history with >= m distinct listed signers on every input must verify (marks '+'/'-')."""
+    for every input, at least m signatures each valid for a distinct listed key — valid = ECDSA (fastecdsa) over the
+    CONSENSUS digest for the hash-type byte the signature carries, computed without the library; an honest history
+    with >= m distinct listed signers on every input must verify (marks '+'/'-')."""
     if out.startswith('CRASH') or out == 'BADREQ':
         return 'unexpected answer %r' % out[:160]
     inputs, ops = parse_req(c.req)
-    obs_ops = [o for o in ops if o[0] in 'SVR']
+    bases = _base_hts(ops)
+    obs_ops = [(o, bases[j]) for j, o in enumerate(ops) if o[0] in 'SVRQC']
     obs = [] if out == '-' else out.split(' ')
     if len(obs) != len(obs_ops):
         return 'answer has %d observations for %d observing operations' % (len(obs), len(obs_ops))
-    for o, a in zip(obs_ops, obs):
+    for (o, base), a in zip(obs_ops, obs):
         if o[0] == 'S':
             if not (a in ('S0', 'S1', 'S2')):
                 return 'sign() ended with %s' % a
@@ -443,22 +596,31 @@ def prop_check(c, out):
         enough = []
         for (ty, m, ks), rows in zip(inputs, per):
             enough.append(max_matching([] if rows == '-' else rows.split(',')) >= m)
-        where = 'Transaction.verify()' if o[0] == 'V' else 'Transaction.parse(raw()).verify()'
-        if verdict == 'T' and not all(enough):
+        where = {'V': 'Transaction.verify()', 'R': 'Transaction.parse(raw()).verify()',
+                 'Q': 'Transaction.parse(raw() with hash-type bytes %s).verify()' % o.split('/')[-1],
+                 'C': 'verify() of the inputs rebuilt from serialized signatures (hash-type bytes %s)' % o.split('/')[-1]}[o[0]]
+        mixed = exempt_mixed and _mixed(o, base, per)
+        if verdict == 'T' and not all(enough) and not mixed:
             i = enough.index(False)
             return ('SOUNDNESS: %s is True but input %d (%s, %d-of-%d) carries fewer than %d signatures valid for '
-                    'distinct listed keys (validity matrix %s)' % (where, i, inputs[i][0], inputs[i][1],
-                                                                  len(set(inputs[i][2])), inputs[i][1], per[i]))
+                    'distinct listed keys under the digest for the hash type each signature carries (validity matrix %s)'
+                    % (where, i, inputs[i][0], inputs[i][1], len(set(inputs[i][2])), inputs[i][1], per[i]))
         for i, f in enumerate(flags):
-            if f == 'T' and not enough[i]:
+            if f == 'T' and not enough[i] and not mixed:
                 return ('SOUNDNESS: Input.valid is True for input %d after %s although it carries fewer than %d '
                         'valid signatures for distinct listed keys (matrix %s)' % (i, where, inputs[i][1], per[i]))
-        if o[1:] == '+' and verdict != 'T':
-            return ('COMPLETENESS: every input was signed through Transaction.sign by at least m distinct listed keys '
-                    'over the current digest but %s is False (matrix %s)' % (where, mat))
-        if o[1:] == '-' and verdict != 'F':
-            return 'SOUNDNESS: %s is True on a history with fewer than m listed signers (matrix %s)' % (where, mat)
+        if _mark(o) == '+' and verdict != 'T':
+            if exempt_legacy_non_all and any(inputs[i][0] in LEGACY and not _all_like(h) for i, h in base.items()):
+                continue
+            return ('COMPLETENESS: every input carries at least m signatures by distinct listed keys over the current '
+                    'consensus digest (for the hash type they carry) but %s is False (matrix %s)' % (where, mat))
+        if _mark(o) == '-' and verdict != 'F' and not mixed:
+            return 'SOUNDNESS: %s is True on a history with fewer than m valid listed signatures (matrix %s)' % (where, mat)
     return None
+
+
+def _all_like(ht):
+    return not (ht & 0x80) and (ht & 0x1f) not in (2, 3)
 
 
 def _same_point_twice(c):
@@ -489,10 +651,43 @@ def _resigned(c):
     return False
 
 
+def _c01_recorded(cid):
+    from core import load_known
+    return any(e.get('id') == cid and e.get('status') == 'known' for e in load_known('C01'))
+
+
+def _legacy_non_all(c, io, mo):
+    """C01's recorded class legacy_non_all_hashtype (the legacy serializer ignores the hash type): a legacy input that
+    carries third-party signatures for a hash type with ANYONECANPAY or base type NONE / SINGLE is not verified over
+    the consensus digest.  Exactly that: the only thing wrong with the answers is a '+' step on such an input."""
+    if not _c01_recorded('legacy_non_all_hashtype'):
+        return False
+    inputs, ops = parse_req(c.req)
+    hit = False
+    for o in ops:
+        f = o.split('/')
+        if f[0] == 'P' and inputs[int(f[1])][0] in LEGACY and not _all_like(int(f[2])):
+            hit = True
+    return hit and prop_check(c, io) is not None and prop_check(c, io, exempt_legacy_non_all=True) is None
+
+
+def _mixed_hash_types(c, io, mo):
+    """the library checks all signatures of an input under ONE digest, the one for Input.hash_type (the first
+    signature's byte after parse; the last non-zero one after Input(signatures=...)): steps at which the signatures of
+    one input carry different bytes, or the byte 00 on the constructor path; the only thing wrong with the answers is
+    a True verdict at such a step"""
+    return prop_check(c, io) is not None and prop_check(c, io, exempt_mixed=True) is None
+
+
+# recorded under another property (C01): excused only while recorded there, see _legacy_non_all
+DOMAIN_CLASSES = ('legacy_non_all_hashtype',)
 KNOWN_CLASSES = {
-    # both recorded classes are completeness failures; a soundness failure is never suppressed
+    # the first two recorded classes are completeness failures; a soundness failure is never suppressed by them
     'dup_point_keys': lambda c, io, mo: _same_point_twice(c) and (prop_check(c, io) or '').startswith('COMPLETENESS'),
     'resign_keeps_stale': lambda c, io, mo: _resigned(c) and (prop_check(c, io) or '').startswith('COMPLETENESS'),
+    'legacy_non_all_hashtype': _legacy_non_all,
+    # a soundness class: excuses exactly the steps at which Input.hash_type cannot be every checked signature's hash type
+    'input_level_hash_type': _mixed_hash_types,
 }
 
 
